@@ -12,9 +12,12 @@ import (
 	"path/filepath"
 	"runtime/debug"
 	"sort"
+	"strconv"
 	"strings"
 	"sync"
+	"syscall"
 	"testing"
+	"time"
 
 	"pgregory.net/rapid"
 )
@@ -180,6 +183,47 @@ func safeRun[C any](run func(C) Result, c C) (r Result) {
 	return run(c)
 }
 
+// cpuSeconds is the CPU time (user + system) this process has consumed.
+func cpuSeconds() float64 {
+	var ru syscall.Rusage
+	if err := syscall.Getrusage(syscall.RUSAGE_SELF, &ru); err != nil {
+		return 0
+	}
+	tv := func(t syscall.Timeval) float64 { return float64(t.Sec) + float64(t.Usec)/1e6 }
+	return tv(ru.Utime) + tv(ru.Stime)
+}
+
+// cpuWatch guards a case of a pure (input -> output) check against non-termination: when VERIF_CPU_LIMIT=<seconds>
+// is set and the process burns more than that much CPU time inside one case, the case is saved as a failure and the
+// process ends. CPU time, not wall-clock time, is the signal: it only accrues while the code under test is actually
+// running, so a loaded machine cannot produce it, and the cases of these checks need micro- to milliseconds.
+func cpuWatch[C any](p Prop[C], c C) (stop func()) {
+	limit, err := strconv.ParseFloat(os.Getenv("VERIF_CPU_LIMIT"), 64)
+	if err != nil || limit <= 0 {
+		return func() {}
+	}
+	start, done := cpuSeconds(), make(chan struct{})
+	go func() {
+		tick := time.NewTicker(250 * time.Millisecond)
+		defer tick.Stop()
+		for {
+			select {
+			case <-done:
+				return
+			case <-tick.C:
+				if cpuSeconds()-start > limit {
+					r := Result{Fail: fmt.Sprintf("the call did not return: the case consumed more than %v s of CPU time", limit)}
+					path := saveFailure(p, c, r)
+					fmt.Printf("--- FAIL: %s [replay=%s]\n", r.Fail, filepath.Base(path))
+					WriteStats()
+					os.Exit(1)
+				}
+			}
+		}
+	}()
+	return func() { close(done) }
+}
+
 func envOr(k, d string) string {
 	if v := os.Getenv(k); v != "" {
 		return v
@@ -238,7 +282,9 @@ func Check[C any](t *testing.T, p Prop[C]) {
 			// write-ahead: if a library goroutine panics, the process dies and this file is the replay
 			writeJournal(p, c)
 		}
+		stop := cpuWatch(p, c)
 		r := safeRun(p.Run, c)
+		stop()
 		record(p, c, r)
 		if r.Fail != "" {
 			cb, _ := json.Marshal(c)
@@ -270,7 +316,9 @@ func replayFile[C any](t *testing.T, p Prop[C], path string, explicit bool) {
 	}
 	// a known finding's own scenario is replayed with that finding's exclusion switched off
 	replayNoExclude = sc.Known
+	stop := cpuWatch(p, c)
 	r := safeRun(p.Run, c)
+	stop()
 	replayNoExclude = ""
 	mu.Lock()
 	getStats(p.full()).Regress++
